@@ -72,6 +72,11 @@ def _one(g, pid, f, r):
                     break
         oracle_bad = bool(bad_f or bad_c) or (last[0] == 40 and bool(world.oracle_query(w, last, impl[-1])))
         return 1 if (diff or oracle_bad) else 0
+    if "plan" in r and isinstance(r["plan"], dict) and "free" in r["plan"]:
+        import twinleg
+        bad = twinleg.compare(g, r["plan"])
+        print("    twin-cache history of %d operations on two loads of one file:" % len(r["plan"]["ops"]), bad[0] if bad else "implementation and model agree")
+        return 1 if bad else 0
     if "file" in r and isinstance(r["file"], str):
         bs = bytes.fromhex(r["file"])
         try:
